@@ -23,6 +23,7 @@ import ast
 
 from hpstatic.interp import Interp, expr_term
 from hpstatic.loader import AnalysisError
+from .common import lt_form
 from hpstatic.logic import nnf
 from hpstatic.poly import Canon
 from hpstatic.terms import (sym, intern, show, subterms, calls_in, NONE, num, kw)
@@ -66,6 +67,7 @@ def run(check, prog):
     csg_motion(check, prog)
     bounds_search(check, prog)
     domain_count(check, prog)
+    sphere_like_constructors(check, prog)
     # the region of a centred scatterer moves by the vector: centre' = centre + v
     from . import c19
     c19.scatterer_translated(check, prog)
@@ -829,3 +831,46 @@ def domain_count(check, prog):
                   '(%d shapes)' % n, prog.loc(q, fd),
                   fail_detail='; '.join(bad[:3]) + ': a union, difference or intersection '
                   'with such an operand raises TypeError in CsgScatterer.__init__')
+
+
+def sphere_like_constructors(check, prog):
+    """K5b: every way of constructing a (layered) sphere refuses a negative radius
+    -- or layer thickness -- and a malformed centre.  Sphere does; a subclass with
+    its own __init__ must not lose the refusals by not calling it."""
+    SPH = SC + 'sphere.Sphere'
+    n = 0
+    for C in sorted(prog.subclasses(SPH)):
+        c = prog.classes[C]
+        if '__init__' not in c.methods:
+            continue
+        n += 1
+        q = C + '.__init__'
+        fd = prog.func(q)
+        loc = prog.loc(q, fd)
+        it = Interp(prog, max_depth=3, opaque=['holopy.core.utils.ensure_array'])
+        res = it.analyze(q, selfcls=C)
+        conds = [o.cond for o in res.raises if 'InvalidScatterer' in show(o.value)]
+        # refusals inside inlined parent constructors are recorded as effects
+        conds += [e['cond'] for e in it.effects if e['kind'] == 'raise' and
+                  'InvalidScatterer' in show(e.get('exc', NONE))]
+        neg = centre = False
+        for cnd in conds:
+            for ct, pol in cnd:
+                for x in subterms(ct):
+                    f = lt_form(x) if x[0] == 'cmp' else None
+                    if f and f[0] == '<' and ((f[2] == num(0)) or (f[1] == num(0))):
+                        neg = True
+                    if x[0] == 'cmp' and x[1] in ('!=', '==') and num(3) in (x[2], x[3]) \
+                            and any(y[0] == 'call' and y[1] == 'len' for y in (x[2], x[3])):
+                        centre = True
+        short = C.rpartition('.')[2]
+        check.require(neg, 'K5-rejections', '%s.__init__ negative size' % short,
+                      'a negative radius / layer thickness raises InvalidScatterer', loc,
+                      fail_detail='%s(...) never compares its radii or thicknesses with '
+                      '0: a negative layer thickness is accepted and gives a negative '
+                      'radius' % short)
+        check.require(centre, 'K5-rejections', '%s.__init__ centre' % short,
+                      'a centre that is not three numbers raises InvalidScatterer', loc,
+                      fail_detail='%s(...) stores any centre: center=(0, 0) or center=3 is '
+                      'accepted' % short)
+    check.floor('sphere-like constructors checked', n, 2)
